@@ -1,43 +1,27 @@
 package c20
 
 import (
+	"context"
 	"fmt"
 	"testing"
 	"time"
 
-	"github.com/gittuf/gittuf/verif/evid"
+	"github.com/gittuf/gittuf/internal/tuf"
+	"github.com/gittuf/gittuf/verif/keys"
+	"github.com/gittuf/gittuf/verif/world"
 )
 
-func TestProbeLW(t *testing.T) {
-	db, _ := buildRefDB()
-	atts, _ := libWriteAttempts(db)
-	cnt := map[string]int{}
-	for _, a := range atts {
-		ch, ra, d, _ := runWriteAttempt(a)
-		k := fmt.Sprintf("%s/%s changed=%v raised=%v", a.Method, a.KeyCls, ch, ra)
-		if cnt[k] == 0 {
-			fmt.Println(k, "|", firstLine(a.Script), "|", d)
-		}
-		cnt[k]++
-	}
-	fmt.Println(cnt)
-}
-
 func TestProbeHooks(t *testing.T) {
-	col := evid.New("C20x")
 	w, err := newHookWorld(t)
 	if err != nil {
 		t.Fatal(err)
 	}
-	cs := hookCases(2)
-	fmt.Println("cases", len(cs))
-	for _, i := range []int{0, 1, 30, 100, 200} {
-		t0 := time.Now()
-		c := cs[i]
-		if err := w.judge(col, c); err != nil {
-			t.Fatal(err)
-		}
-		fmt.Println(c, time.Since(t0))
+	st, _ := w.buildState([]hookSpec{{3, 7}})
+	if _, err := world.PublishPolicy(w.repo, st, false); err != nil {
+		t.Fatal(err)
 	}
-	fmt.Println(col.NumViolations())
+	fmt.Println("MARK-BEGIN")
+	t0 := time.Now()
+	codes, err := w.g.InvokeHooksForStage(context.Background(), keys.Signer{K: keys.Get("K0")}, tuf.HookStagePreCommit)
+	fmt.Println("MARK-END pre-commit", codes, err, time.Since(t0))
 }
